@@ -401,6 +401,10 @@ def depth_probe(ctx, label, fn, good, frees=None, cls="near_recursion_limit", ti
         kind = o.split(":")[0].split(" ")[0]
         seen.add(kind)
         ctx.case(cls, key="%s|%s" % (label, kind), nontrivial=(o != "ok"))
+        if o == "RecursionError" and free >= 450:
+            ctx.violation("stack_use_out_of_proportion:" + label, "%s raised RecursionError with about %d stack frames still free (on the pinned tree the deepest of these calls needs about 200: "
+                          "one frame per bit of a scalar or per element of the input is not a legitimate reason to fail)" % (label, free), dict(label=label, free_frames=free))
+            break
         if o not in ("ok", "RecursionError"):
             ctx.violation("outcome_changes_near_recursion_limit:" + label, "%s called with about %d free stack frames: %s (legitimate: the right result, or RecursionError)" % (label, free, o), dict(label=label, free_frames=free))
             break
